@@ -98,9 +98,10 @@ LEVEL_TEXT += (" PARTITION part: the inline partition test is modelled in Model/
                "proved for all name lists: both sides reach the same verdict (C15_partition_symmetric), the empty list gets exactly the verdict "
                "of the list holding the empty name (C15_partition_empty_is_default; defect D20a, repaired by fixes/D20a.patch), on ALL pattern-free "
                "lists the verdict is the DDS rule 'a common name' (C15_partition_plain), the executable glob matcher accepts exactly the "
-               "declarative reading of a pattern (C15_partition_glob_spec); regression witness C15_partition_empty_old_counterexample; open "
-               "findings with Lean witnesses: a pattern is matched against the other side's patterns (D20b), + is a regex quantifier (D20c: "
-               "two tests of the repository rely on it).")
+               "declarative reading of a pattern (C15_partition_glob_spec); on all lists of expressions and clean names the verdict is the DDS partition rule - equal strings match, an expression "
+               "matches the names it describes, two different expressions never match each other (C15_partition_spec; defect D20b, repaired by "
+               "fixes/D20b.patch); regression witnesses C15_partition_empty_old_counterexample, C15_partition_pattern_vs_pattern_counterexample; "
+               "open finding with a Lean witness: + is a regex quantifier (D20c: two tests of the repository rely on it).")
 _run_rxo_part = run
 
 
